@@ -1,7 +1,9 @@
 import Operon.Lemmas.C13
 import Operon.Lemmas.C13Lines
 import Operon.Lemmas.C13Tr
+import Operon.Lemmas.C13Clients
 import Operon.Gen.LysosomeLocks
+import Operon.Gen.LysosomeClients
 import Operon.Gen.LysosomeTranslated
 /-!
 # C13 — waste handling never hangs, stays bounded and accounts for every item
@@ -604,6 +606,58 @@ theorem c13_translated_source_satisfies_property (cfg : Cfg) (hre : cfg.reent = 
 
 end Translated
 
+/-! ### callers that never hand over a timezone-aware `created_at`; the library's own client -/
+
+/-- Every call returns WITH A RESULT — no exception, no hang — for any configuration and any history in which no
+    `ingest` hands over a `Waste` whose `created_at` is timezone-aware (explicit naive datetimes of any value, far past
+    or future, are allowed): `ingest` returns, `digest` returns its `DigestResult`, `autophagy` its count.  (The model's
+    only exception is `autophagy`'s TypeError on a timezone-aware `created_at`; `c13_every_call_returns` counts that
+    as a return, this statement shows when it cannot happen.) -/
+theorem c13_calls_return_results_without_aware_stamp (cfg : Cfg) (hre : cfg.reent = (reentOf lockKind == some true))
+    (ops : List Op) (hp : ∀ op ∈ ops, op.plain = true) :
+    ∀ o ∈ runObs cfg init ops, o.normal = true := by
+  have : (reentOf lockKind == some true) = true := by decide
+  rw [this] at hre
+  exact run_normal cfg hre ops init rfl init_noTz hp
+
+/-- (witness that the side condition is needed) one timezone-aware item in the queue and `autophagy()` ends in an
+    exception — every time, until the item has been digested; nothing expires meanwhile. -/
+theorem c13_aware_stamp_makes_autophagy_raise_witness :
+    (runObs ⟨8, 8, 10, true, fun _ => .ret [], none, none⟩ init
+      [.ingest 1 .expired 1 .now, .ingest 2 .expired 1 .aware, .advance 100, .autophagy, .autophagy, .digest none,
+       .autophagy]).map Obs.normal = [true, true, true, false, false, true, true] := by decide
+
+/-- (table: the library's own clients, regenerated on every run by `harness/vf/extract/e3_lysosome_clients.py`) The
+    only place in `operon_ai/` outside `lysosome.py` that calls into a lysosome is the context-pruning daemon
+    (`healing/autophagy_daemon.py`), and only its `ingest` (and read-only statistics); and in every probed situation
+    (forced or not × tiny / large / critical / noisy context) `AutophagyDaemon.check_and_prune`, run on the real code
+    against a recording proxy around a real `Lysosome`, did not raise and touched the shared lysosome by exactly one
+    `ingest` of an EXPIRED_CACHE item whose `created_at` is the (naive) clock reading at creation when it pruned, and
+    not at all when it did not; at least one probed situation prunes. -/
+theorem c13_daemon_feeds_one_plain_item_table :
+    Gen.LysosomeClients.recognised = true ∧
+    (∀ s ∈ Gen.LysosomeClients.sites, s.1 = "operon_ai/healing/autophagy_daemon.py" ∧
+      (s.2.2 = "ingest" ∨ s.2.2 = "get_statistics" ∨ s.2.2 = "get_queue_status" ∨ s.2.2 = "get_recycled")) ∧
+    (∀ r ∈ Gen.LysosomeClients.probeRuns, r.ok = true) ∧
+    Gen.LysosomeClients.probeRuns.any (·.pruned) = true := by decide
+
+/-- An application that shares its lysosome with the daemon: for any configuration and any interleaving of the
+    application's own calls (none of which hands over a timezone-aware `created_at`) with daemon cycles — each behaving
+    like one of the runs probed on the real `check_and_prune` — every call on the lysosome returns with a result:
+    in particular `autophagy()` never meets an item it cannot compare with its `now()`.  The history is an ordinary
+    history of the model, so the queue bound, the fate partition and the toxic clauses (`c13_queue_bounded`,
+    `c13_fate_partition`, …) hold for it as they stand: the daemon's item is one more ingested item with exactly one
+    fate. -/
+theorem c13_shared_with_daemon_calls_return_results (cfg : Cfg)
+    (hre : cfg.reent = (reentOf lockKind == some true)) (calls : List Call)
+    (happ : ∀ op, Call.app op ∈ calls → op.plain = true) :
+    ∀ o ∈ runObs cfg init (calls.flatMap (Call.ops Gen.LysosomeClients.probeRuns)), o.normal = true := by
+  apply c13_calls_return_results_without_aware_stamp cfg hre
+  intro op hop
+  obtain ⟨call, hcall, hop⟩ := List.mem_flatMap.mp hop
+  exact callOps_plain _ c13_daemon_feeds_one_plain_item_table.2.2.1 call
+    (fun o ho => happ o (ho ▸ hcall)) op hop
+
 /-! ### Non-vacuity: concrete configurations and histories meeting the hypotheses, exercising every fate -/
 
 /-- digester raises on content 0, returns a key otherwise; `on_toxic` raises on content 0 -/
@@ -667,5 +721,21 @@ example :
     mid.gPending.map (fun p => (p.1, p.2.id)) = [(1, 1), (2, 2)] ∧ mid.queue = [] ∧
     fin.gPending = [] ∧ fin.gDigested.map (·.id) = [2, 1] ∧ fin.toxicLog.map (·.id) = [2] ∧
     fin.queue.map (·.id) = [3] := by decide
+
+private def callsEx : List Call :=
+  [.app (.ingest 1 .misfolded 1 .now), .client 2 3, .app (.advance 20), .app .autophagy, .app (.digest none)]
+
+/-- a shared history meeting the hypotheses of `c13_shared_with_daemon_calls_return_results`: application items, a
+    daemon cycle that prunes (probed run 3: forced, large context), time passing, `autophagy` expiring the daemon's
+    item together with the application's — four calls on the lysosome, four results -/
+example :
+    (∀ op, Call.app op ∈ callsEx → op.plain = true) ∧
+    callsEx.flatMap (Call.ops Gen.LysosomeClients.probeRuns) =
+      [.ingest 1 .misfolded 1 .now, .ingest 2 .expired 1 .now, .advance 20, .autophagy, .digest none] ∧
+    (run cfgEx init (callsEx.flatMap (Call.ops Gen.LysosomeClients.probeRuns))).gExpired.map (·.id) = [1, 2] := by
+  refine ⟨?_, by decide, by decide⟩
+  intro op h
+  simp only [callsEx, List.mem_cons, Call.app.injEq, List.not_mem_nil, or_false, reduceCtorEq, false_or] at h
+  rcases h with h | h | h | h <;> subst h <;> rfl
 
 end Operon.Lysosome
